@@ -17,10 +17,17 @@ for sid in sorted(os.listdir(SEED)):
             if ']' in x:
                 n=x.split(']')[1].strip().split(' ')[0].rstrip(':')
                 if n not in names: names.append(n)
+    refused=[]
+    for p,v in mat.items():
+        if not isinstance(v,dict): continue
+        for x in (v.get('inconclusive') or []):
+            if ']' in x:
+                n=x.split(']')[1].strip().split(' ')[0].rstrip(':')
+                if n not in refused and n not in names: refused.append(n)
     conc=lambda n: n.startswith('native::') or n in ('mir::recover-vectors','c07::vectors-vs-bigint-model','c07::translator-validation')
     sol=[n for n in names if not conc(n)]
     nat=[n for n in names if conc(n)]
-    which=('solver: '+', '.join(sol[:4]) if sol else 'solver: none (engine refuses the rewritten code or it is outside the encoded functions)')+('; concrete: '+', '.join(nat[:3]) if nat else '')
+    which=('solver refutes: '+', '.join(sol[:4]) if sol else 'solver refutes: none')+('; solver refuses (exit 2 on its own): '+', '.join(refused[:3]) if refused else '')+('; concrete: '+', '.join(nat[:3]) if nat else '')
     note=(m.get('summary') or m.get('needs_to_manifest','')).replace('\n',' ')[:160]
     rows.append('| %s | %s | %s | %s | %s |' % (sid, m['breaks_property'], note, ', '.join(caught) or ('inconclusive only: '+', '.join(inco) if inco else 'NOT caught'), which))
 open(os.path.join(SEED,'README.md'),'w').write('''# Seeded changes
